@@ -529,7 +529,7 @@ def build_model(cfg, key_int):
     kw = {"equivariant": cfg.get("equivariant", True), "use_bias": cfg["bias"]}
     if kw["equivariant"]:
         drop = {tuple(t) for t in cfg.get("bank_drop", [])}
-        bank = ref_bank(D, 3, tuple(cfg["bank_ks"]), (0, 1), cfg.get("group", "B"))
+        bank = ref_bank(D, cfg.get("conv_M", 3), tuple(cfg["bank_ks"]), (0, 1), cfg.get("group", "B"))
         up = ref_bank(D, cfg.get("up_M", 2), tuple(cfg["bank_ks"]), (0, 1), cfg.get("group", "B"))
         if drop:
             import ginjax.geometric as geom
